@@ -684,11 +684,18 @@ def main(run):
             import re
             for ax in re.findall(r"([A-Z]\w*(?:\.\w+)+)\s*:", pa[name]):
                 run.axioms.add(ax)
-        if name.endswith("_refuted"):
-            run.refuted.append(name[:-len("_refuted")])
     run.checker_cmds.append("make -C coq theories/C17/Props.vo")
     check_plan(run, plan(run.tier, rng))
     run_unitaries_probe(run)
+    # a `_refuted` theorem is about the model of the code AS WRITTEN; it describes the current tree only while
+    # the corresponding defect still reproduces (after a repair the run matches the `alt` model instead)
+    REF = {"to_pauli_liouville_column": "to_pauli_liouville:order=column", "qchannel_apply_nonpure": "QuantumChannel.apply:nonpure"}
+    for thm, prefix in REF.items():
+        if any(f.key.startswith(prefix) for f in run.findings):
+            run.refuted.append(thm)
+        else:
+            run.notes.setdefault("refutations_not_reproduced", []).append(
+                f"{thm}_refuted is a theorem about the pre-repair model; the defect no longer reproduces on this tree")
     return run.finish(level="proof", rule=RULE)
 
 
